@@ -55,6 +55,11 @@ CHECKS = {
                      "The translator regenerates that data (isinstance chain, fallback arm, nested-definition guard, statement classes and MROs of the running interpreter) on every run; dispatchOK and its offender list are evaluated on it, "
                      "and every statement class outside the supported set is placed at 9 structural positions and pushed through the real front end, whose outcome must equal the model's.", ref="§7 C11",
                 note="Trusted: Lean kernel + standard axioms; the translator's recognition of the dispatcher's shape (unrecognised arms are reported); ast.parse."),
+    "C12": dict(cat="proof", tech="Lean 4: sortNames_perm (sorting erases set iteration order) + regenerated audit of every order-exposing set use in the source + multi-process runs under many PYTHONHASHSEED values",
+                text="Scfg.C12.sortNames_perm / sorted_perm_eq / length_mem_perm / singleton_perm prove that the consumers the code applies to its sets (sorted, len, membership, the element of a singleton) are independent of iteration order. "
+                     "The translator lists every syntactic site where a set is iterated, popped, unpacked or converted (22 today) on every run; each must be in the audited table with its justification, so removing a sorted() or adding a set iteration leaves the proof no longer covering the code. "
+                     "The real pipeline is run in separate processes under 4 (quick) / 32 (thorough) hash seeds on closed CFGs with hash-sensitive names, source programs (incl. regenerated text) and bytecode functions; digests of exact canonical dumps must coincide.", ref="§7 C12",
+                note="Trusted: Lean kernel + standard axioms; the audit's type inference (a missed set use is only visible to the multi-seed runs); justifications of non-sorted sites are arguments except where a theorem is named (work-list fix-point confluence is not proved; its result is compared with an order-free definition in C13)."),
 }
 
 NOT_YET = {}
